@@ -254,6 +254,7 @@ type verifC39World struct {
 	tIdx     uint64
 	serial   int
 
+	wantDelta int // delta-phase writes to see before the fence is issued
 	phase   int // 0 before migration, 1 delta, 2 fenced, 3 done (ownership switched)
 	stopVar bool
 	capture bool
@@ -462,7 +463,7 @@ func (w *verifC39World) pump(k int, dups []int) bool {
 	// rows the listing must contain
 	var expect []int
 	for p, r := range w.outbox {
-		if r.idx > w.cursorIdx && p >= w.ackedPos && len(expect) < k {
+		if !w.cleaned && r.idx > w.cursorIdx && p >= w.ackedPos && len(expect) < k {
 			expect = append(expect, p)
 		}
 	}
@@ -707,7 +708,7 @@ func (w *verifC39World) actAdvance(rt *rapid.T) {
 			w.startLive()
 		}
 	case 1:
-		if w.nDeltaWrites == 0 && rapid.IntRange(0, 9).Draw(rt, "fenceEarly") < 7 {
+		if w.nDeltaWrites < w.wantDelta {
 			rt.Skip()
 		}
 		w.fence()
@@ -801,7 +802,7 @@ func (w *verifC39World) actAck(rt *rapid.T) {
 
 func (w *verifC39World) actOrchRestart(rt *rapid.T) {
 	w.rt = rt
-	if w.phase == 0 {
+	if w.phase == 0 || w.cleaned {
 		rt.Skip()
 	}
 	// a restarted orchestrator only knows the durable ack watermark
@@ -922,7 +923,8 @@ func TestVerifC39Migration(t *testing.T) {
 		}
 		defer dbT.Close()
 		w := &verifC39World{rt: rt, dbS: dbS, dbT: dbT, srcOwned: []uint16{verifC39H, verifC39Ctl}, tgtOwned: []uint16{verifC39TgtOwn},
-			model: verifC39NewModel(), ctl: verifC39NewModel(), stopVar: rapid.IntRange(0, 9).Draw(rt, "variant") < 2}
+			model: verifC39NewModel(), ctl: verifC39NewModel(), stopVar: rapid.IntRange(0, 9).Draw(rt, "variant") < 2,
+			wantDelta: rapid.IntRange(0, 7).Draw(rt, "wantDelta")}
 		w.src = w.newSM(dbS, verifC39Src, w.srcOwned)
 		w.tgt = w.newSM(dbT, verifC39Tgt, w.tgtOwned)
 		w.sIdx = uint64(rapid.IntRange(0, 50).Draw(rt, "srcIndexBase"))
@@ -934,6 +936,8 @@ func TestVerifC39Migration(t *testing.T) {
 			"writeCtl":      w.actWriteCtl,
 			"misrouted":     w.actMisrouted,
 			"advance":       w.actAdvance,
+			"advance2":      w.actAdvance,
+			"writeH4":       w.actWriteH,
 			"pump":          w.actPump,
 			"pump2":         w.actPump,
 			"dup":           w.actDup,
@@ -943,7 +947,7 @@ func TestVerifC39Migration(t *testing.T) {
 			"restartSource": w.actRestartSource,
 			"reFence":       w.actReFence,
 		})
-		dupsBeforeFinish := w.nDup
+		dupsBeforeFinish, dupsAfterSwitch := w.nDup, w.nDupAfterSwitch
 		w.finish(rt)
 
 		k.Key(strings.Join(w.log, ";"))
@@ -961,7 +965,7 @@ func TestVerifC39Migration(t *testing.T) {
 		k.LabelIf(dupsBeforeFinish > 0, "duplicate deltas delivered (besides the final replay)")
 		k.LabelIf(w.nDupInBatch > 0, "same delta twice in one batch")
 		k.LabelIf(w.nDupAfterRestart > 0, "duplicate delta after a target restart")
-		k.LabelIf(w.nDupAfterSwitch > 0, "duplicate delta after the switch")
+		k.LabelIf(dupsAfterSwitch > 0, "duplicate delta after the switch (besides the final replay)")
 		k.LabelIf(w.nOrchRestart > 0, "orchestrator restart (cursor back to last ack)")
 		k.LabelIf(w.nRestartS > 0, "source state machine restart")
 		k.LabelIf(w.nAck > 0, "outbox rows acked")
